@@ -80,14 +80,14 @@ func (w *World) resolveName(name string) ([]*Term, bool) {
 		n = v.(int)
 	}
 	w.ext["resolves"] = n + 1
-	if w.decideBool(w.freshND("resolver-fails", "bool", 0), "resolver") {
+	if w.decideBool(w.freshND("resolver-fails", "env-bool", 0), "resolver") {
 		return nil, false
 	}
 	ans := make([]*Term, 4)
 	for i := range ans {
 		ans[i] = w.tt.Fresh("resolved", 8)
 	}
-	w.logND("resolver-answer", "bytes", ans, 0)
+	w.logND("resolver-answer", "env-bytes", ans, 0)
 	if n == 0 {
 		w.ext["firstresolved"] = w.to16(ans)
 	}
